@@ -313,3 +313,190 @@ Proof.
     rewrite Hfind, Hxs. apply nth_error_repeat. exact Hi. }
   rewrite Harg in Hv. exact Hv.
 Qed.
+
+(* ================================================================== a row of `p.*.g` cells, parsed *)
+Record starcell := { st_g : str; st_txt : str }.
+
+Definition star_data (p : str) (cs : list starcell) : list (str * str) :=
+  map (fun c => (star_header p (st_g c), st_txt c)) cs.
+
+(* the implied length of the group: max(1, lengths of its list-valued cells) — star_len_spec *)
+Definition group_len (p : str) (cs : list starcell) : nat :=
+  star_len (star_lengths (star_data p cs)) (p ++ [c_dot]).
+
+Definition star_xs (n : nat) (c : starcell) : list nv :=
+  match cell_parse (st_txt c) with Lst l => l | Str s => repeat (Str s) n end.
+
+Definition star_scs (n : nat) (cs : list starcell) : list starcol :=
+  map (fun c => {| sc_name := st_g c; sc_xs := star_xs n c |}) cs.
+
+Definition under (p : str) (cols : list col) : list col := map (fun pc : col => (p :: fst pc, snd pc)) cols.
+
+Lemma cols_of_star_data p cs :
+  clean p = true -> Forall (fun c => clean (st_g c) = true) cs ->
+  cols_of (star_data p cs) = under p (star_cols (star_scs (group_len p cs) cs)).
+Proof.
+  intros Hp Hcs. unfold cols_of, group_len. set (lens := star_lengths (star_data p cs)). clearbody lens.
+  unfold under, star_cols. induction Hcs as [|c cs Hg _ IH]; [reflexivity|].
+  cbn [star_data map flat_map star_scs]. fold (star_data p cs). fold (star_scs (star_len lens (p ++ [c_dot])) cs).
+  rewrite !map_app, IH. f_equal.
+  assert (Hexp : expand_cell lens (star_header p (st_g c), st_txt c) =
+                 star_numbered (star_header p (st_g c)) (star_xs (star_len lens (p ++ [c_dot])) c)).
+  { unfold star_xs. destruct (cell_parse (st_txt c)) as [s|l] eqn:E.
+    - rewrite (expand_star_scalar lens _ _ s (star_header_has_star _ _) E), (star_header_prefix p _ Hp). reflexivity.
+    - apply (expand_star_list lens _ _ l (star_header_has_star _ _) E). }
+  rewrite Hexp. unfold star_numbered, star_col_cols. cbn [sc_name sc_xs]. rewrite !map_map.
+  apply map_ext. intros [i x]. cbn [fst snd]. rewrite (star_header_path p (st_g c) i Hp Hg). reflexivity.
+Qed.
+
+Lemma sub_key_under h2f k p cols :
+  sub_key h2f k (under p cols) = if str_eqb (remap_get h2f p) k then cols else [].
+Proof.
+  unfold under. induction cols as [|[rest c] r IH]; [destruct (str_eqb _ _); reflexivity|].
+  cbn [map sub_key fst snd]. rewrite IH. destruct (str_eqb (remap_get h2f p) k); reflexivity.
+Qed.
+
+Lemma star_header_inj p g g' : star_header p g = star_header p g' -> g = g'.
+Proof. unfold star_header. intros H. apply app_inv_head in H. apply app_inv_head in H. exact H. Qed.
+
+Lemma star_data_nodup p cs : NoDup (map st_g cs) -> NoDup (map fst (star_data p cs)).
+Proof.
+  unfold star_data. rewrite map_map. cbn [fst]. induction cs as [|c cs IH]; intros H; [constructor|].
+  cbn [map] in *. inversion H as [|x l Hni Hnd]; subst. constructor; [|apply IH, Hnd].
+  intros Hin. apply Hni. apply in_map_iff in Hin. destruct Hin as [c' [Heq Hc']].
+  apply star_header_inj in Heq. rewrite <- Heq. apply in_map. exact Hc'.
+Qed.
+
+(* the row value: the list field holds vs, every other field its default *)
+Definition group_row_spec (fields : list field) (pk : str) (vs : list value) (fs : list (str * value)) : Prop :=
+  Forall2 (fun (f : field) (nv : str * value) =>
+             fst nv = f_name f /\
+             if str_eqb (f_name f) pk then snd nv = VList vs else f_default f = Some (snd nv)) fields fs.
+
+Theorem star_group_encodes fields h2f f2h p cs sfields sh2f sf2h vs fs :
+  let scs := star_scs (group_len p cs) cs in
+  clean p = true -> Forall (fun c => clean (st_g c) = true) cs -> NoDup (map st_g cs) ->
+  NoDup (map f_name fields) ->
+  field_ty fields (remap_get h2f p) = Some (TList (TModel sfields sh2f sf2h)) ->
+  NoDup (map f_name sfields) -> NoDup (map (star_key sh2f) scs) ->
+  (forall sc, In sc scs -> field_ty sfields (star_key sh2f sc) <> None) ->
+  length vs = star_n scs -> (0 < star_n scs)%nat ->
+  (forall i, (i < star_n scs)%nat ->
+             exists efs, nth i vs (VStr []) = VModel efs /\ star_elem_spec sfields sh2f scs i efs) ->
+  group_row_spec fields (remap_get h2f p) vs fs ->
+  Encodes {| rm_ty := TModel fields h2f f2h; rm_ctx := None |} (VModel fs) (star_data p cs).
+Proof.
+  intros scs Hp Hcs Hndg Hnd Hpty Hsnd Hndk Hfld Hlen Hpos Hspec Hrow.
+  apply (Encodes_intro _ _ _ (star_data p cs)); [reflexivity| |].
+  - cbn [rm_ctx]. apply rekey_none. apply star_data_nodup. exact Hndg.
+  - cbn [rm_ty]. rewrite (cols_of_star_data p cs Hp Hcs). fold scs.
+    pose proof (star_columns_enc sfields sh2f sf2h None scs vs Hsnd Hndk Hfld Hlen Hpos Hspec) as HE.
+    assert (Hne : star_cols scs <> []).
+    { intros Hnil. destruct (proj1 enc_sound _ _ _ _ HE) as [Hemp _]. specialize (Hemp Hnil). discriminate. }
+    apply EncModelSpread.
+    + unfold under. destruct (star_cols scs); [congruence|discriminate].
+    + exact Hnd.
+    + unfold heads_ok, under. apply Forall_forall. intros pc Hin. apply in_map_iff in Hin.
+      destruct Hin as [pc' [<- _]]. cbn [fst]. rewrite Hpty. discriminate.
+    + apply build_fields. pose proof (Forall2_with_in _ _ _ Hrow) as Hrow'.
+      eapply Forall2_impl; [|exact Hrow']. cbn beta.
+      intros f nv [Hin [Hn Hv]]. split; [exact Hn|]. rewrite sub_key_under. rewrite (str_eqb_sym (remap_get h2f p)).
+      destruct (str_eqb (f_name f) (remap_get h2f p)) eqn:E.
+      * apply str_eqb_eq in E.
+        assert (Hty : f_ty f = TList (TModel sfields sh2f sf2h)).
+        { destruct f as [n [t d]]. cbn [f_name f_ty fst snd] in *. subst n.
+          pose proof (field_ty_in fields _ t d Hnd Hin) as H1. congruence. }
+        rewrite Hty, Hv.
+        apply (star_columns_enc sfields sh2f sf2h (f_default f) scs vs Hsnd Hndk Hfld Hlen Hpos Hspec).
+      * rewrite Hv. apply EncDefault.
+Qed.
+
+(* ---- the implied length of the group, in terms of its cells ---- *)
+Definition list_lens (cs : list starcell) : list nat :=
+  flat_map (fun c => match cell_parse (st_txt c) with Lst l => [length l] | Str _ => [] end) cs.
+
+Lemma star_lens_of_group p cs : clean p = true -> star_lens_of (p ++ [c_dot]) (star_data p cs) = list_lens cs.
+Proof.
+  intros Hp. unfold star_lens_of, star_data, list_lens. induction cs as [|c cs IH]; [reflexivity|].
+  cbn [map flat_map fst snd]. rewrite IH, star_header_has_star, (star_header_prefix p _ Hp), str_eqb_refl. reflexivity.
+Qed.
+
+(* length = max over the sibling `*` columns that hold lists (at least 1) ... *)
+Theorem group_len_spec p cs : clean p = true -> group_len p cs = max_from 1 (list_lens cs).
+Proof. intros Hp. unfold group_len. rewrite star_len_spec, (star_lens_of_group p cs Hp). reflexivity. Qed.
+
+(* ... whatever the order of the columns *)
+Theorem group_len_order p cs cs' : clean p = true -> Permutation cs cs' -> group_len p cs = group_len p cs'.
+Proof.
+  intros Hp H. rewrite !group_len_spec by exact Hp. apply max_from_perm. unfold list_lens.
+  induction H as [|x l l' _ IH|x y l|l l' l'' _ IH1 _ IH2]; cbn [flat_map].
+  - constructor.
+  - apply Permutation_app_head, IH.
+  - rewrite !app_assoc. apply Permutation_app_tail, Permutation_app_comm.
+  - eapply Permutation_trans; eassumption.
+Qed.
+
+Lemma max_from_le l b : forall m, (m <= b)%nat -> (forall x, In x l -> (x <= b)%nat) -> (max_from m l <= b)%nat.
+Proof.
+  induction l as [|y l IH]; intros m Hm H; [exact Hm|]. cbn. apply IH.
+  - specialize (H y (or_introl eq_refl)). lia.
+  - intros x Hx. apply H. right. exact Hx.
+Qed.
+
+(* with a single-value cell in the group, the list the group stands for has exactly the implied length *)
+Lemma star_n_group p cs c s :
+  clean p = true -> In c cs -> cell_parse (st_txt c) = Str s ->
+  star_n (star_scs (group_len p cs) cs) = group_len p cs.
+Proof.
+  intros Hp Hc Hs. set (n := group_len p cs). unfold star_n, star_scs. rewrite map_map. cbn [sc_xs].
+  apply Nat.le_antisymm.
+  - apply max_from_le; [lia|]. intros x Hx. apply in_map_iff in Hx. destruct Hx as [c' [<- Hc']].
+    unfold star_xs. destruct (cell_parse (st_txt c')) as [s'|l] eqn:E.
+    + rewrite repeat_length. lia.
+    + unfold n. rewrite (group_len_spec p cs Hp). apply max_from_in. unfold list_lens. apply in_flat_map.
+      exists c'. split; [exact Hc'|]. rewrite E. left. reflexivity.
+  - apply max_from_in. apply in_map_iff. exists c. split; [|exact Hc].
+    unfold star_xs. rewrite Hs. apply repeat_length.
+Qed.
+
+(* 3'. the whole statement at the level of parse_row: a row of `p.*.g` cells parses to the row whose
+   list field p has group_len elements (= max over the sibling list-valued cells, at least 1, in any
+   column order), and a cell holding ONE value s gives EVERY element the value s denotes *)
+Theorem asterisk_broadcast_row fields h2f f2h p cs sfields sh2f sf2h vs fs c s :
+  let scs := star_scs (group_len p cs) cs in
+  clean p = true -> Forall (fun c => clean (st_g c) = true) cs -> NoDup (map st_g cs) ->
+  NoDup (map f_name fields) ->
+  field_ty fields (remap_get h2f p) = Some (TList (TModel sfields sh2f sf2h)) ->
+  NoDup (map f_name sfields) -> NoDup (map (star_key sh2f) scs) ->
+  (forall sc, In sc scs -> field_ty sfields (star_key sh2f sc) <> None) ->
+  length vs = group_len p cs ->
+  (forall i, (i < group_len p cs)%nat ->
+             exists efs, nth i vs (VStr []) = VModel efs /\ star_elem_spec sfields sh2f scs i efs) ->
+  group_row_spec fields (remap_get h2f p) vs fs ->
+  In c cs -> cell_parse (st_txt c) = Str s ->
+  parse_row {| rm_ty := TModel fields h2f f2h; rm_ctx := None |} (star_data p cs) = Ok (VModel fs)
+  /\ group_len p cs = max_from 1 (list_lens cs)
+  /\ forall i f, (i < group_len p cs)%nat -> In f sfields -> f_name f = remap_get sh2f (st_g c) ->
+                 exists efs v, nth i vs (VStr []) = VModel efs /\ In (f_name f, v) efs /\ EncNv (f_ty f) v (Str s).
+Proof.
+  intros scs Hp Hcs Hndg Hnd Hpty Hsnd Hndk Hfld Hlen Hspec Hrow Hc Hs.
+  pose proof (star_n_group p cs c s Hp Hc Hs) as Hn. fold scs in Hn.
+  assert (Hpos : (0 < star_n scs)%nat).
+  { rewrite Hn, (group_len_spec p cs Hp). pose proof (max_from_ge (list_lens cs) 1). lia. }
+  split; [|split].
+  - apply encodes_parse.
+    assert (H1 : length vs = star_n scs) by (rewrite Hn; exact Hlen).
+    assert (H2 : forall i, (i < star_n scs)%nat ->
+                 exists efs, nth i vs (VStr []) = VModel efs /\ star_elem_spec sfields sh2f scs i efs)
+      by (rewrite Hn; exact Hspec).
+    exact (star_group_encodes fields h2f f2h p cs sfields sh2f sf2h vs fs Hp Hcs Hndg Hnd Hpty Hsnd Hndk Hfld H1 Hpos H2 Hrow).
+  - apply group_len_spec, Hp.
+  - intros i f Hi Hf Hname. destruct (Hspec i Hi) as [efs [Hnth Hes]].
+    set (sc := {| sc_name := st_g c; sc_xs := star_xs (group_len p cs) c |}).
+    assert (Hsc : In sc scs) by (unfold scs, star_scs; apply in_map_iff; exists c; split; [reflexivity|exact Hc]).
+    assert (Hxs : sc_xs sc = repeat (Str s) (star_n scs)).
+    { unfold sc. cbn [sc_xs]. unfold star_xs. rewrite Hs, Hn. reflexivity. }
+    rewrite <- Hn in Hi.
+    destruct (asterisk_broadcast sfields sh2f scs sc (Str s) Hndk Hsc Hxs i efs Hi Hes f Hf Hname) as [v [Hin Hv]].
+    exists efs, v. split; [exact Hnth|]. split; assumption.
+Qed.
